@@ -1,5 +1,6 @@
 """Collection of classes that are used by the user to define the model and grids."""
 
+import math
 from abc import ABC, abstractmethod
 from dataclasses import dataclass, fields, is_dataclass
 from typing import Any
@@ -131,6 +132,13 @@ class LogspaceGrid(ContinuousGrid):
 
     """
 
+    def __post_init__(self) -> None:
+        super().__post_init__()
+        if self.start <= 0:
+            raise GridInitializationError(
+                "start must be positive for a logarithmic grid"
+            )
+
     def to_jax(self) -> Array:
         """Convert the grid to a Jax array."""
         return grid_helpers.logspace(self.start, self.stop, self.n_points)
@@ -252,8 +260,11 @@ def _validate_continuous_grid(
             f"n_points must be an int greater than 0 but is {n_points}",
         )
 
-    if valid_start_type and valid_stop_type and start >= stop:
-        error_messages.append("start must be less than stop")
+    if valid_start_type and valid_stop_type:
+        if not (math.isfinite(start) and math.isfinite(stop)):
+            error_messages.append("start and stop must be finite")
+        elif start >= stop:
+            error_messages.append("start must be less than stop")
 
     if error_messages:
         msg = format_messages(error_messages)
